@@ -212,7 +212,9 @@ def linspace(lo, hi, num):
 
 def _unary(a, f, kind=None, keepnan=True):
     if isinstance(a, SArr):
-        return SArr(a.shape_e, lambda *ix: f(a.elem(*ix)), kind or a.kind, nan=a.nan if keepnan else None)
+        r = SArr(a.shape_e, lambda *ix: f(a.elem(*ix)), kind or a.kind, nan=a.nan if keepnan else None)
+        r.off = a.off
+        return r
     if isinstance(a, (list, tuple)):
         return _unary(array(a), f, kind, keepnan)
     return wrap(f(lift(a)))
@@ -603,7 +605,19 @@ def flipud(a):
 
 # ---------------------------------------------------------------------------- reductions
 
+def _based(a):
+    """(bound vars, range formula, element term) quantifying in base coordinates for slice views"""
+    ix = _qv(a.ndim)
+    off = a.off or [z3.IntVal(0)] * a.ndim
+    rng = z3.And(*[z3.And(o <= i, i < o + n) for i, n, o in zip(ix, a.shape_e, off)])
+    el = a.elem(*[z3.simplify(i - o) for i, o in zip(ix, off)])
+    return ix, rng, z3.simplify(el)
+
+
 def _forall_elems(a, pred):
+    if a.off is not None:
+        ix, rng, el = _based(a)
+        return z3.ForAll(ix, z3.Implies(rng, pred(el)))
     ix = _qv(a.ndim)
     rng = z3.And(*[z3.And(0 <= i, i < n) for i, n in zip(ix, a.shape_e)])
     # concrete small extents: expand
@@ -615,6 +629,9 @@ def _forall_elems(a, pred):
 
 
 def _exists_elems(a, pred):
+    if a.off is not None:
+        ix, rng, el = _based(a)
+        return z3.Exists(ix, z3.And(rng, pred(el)))
     ix = _qv(a.ndim)
     rng = z3.And(*[z3.And(0 <= i, i < n) for i, n in zip(ix, a.shape_e)])
     cs = [concrete(s) for s in a.shape_e]
@@ -677,7 +694,11 @@ any = any_
 
 
 def alltrue(a):
-    raise AttributeError("module 'numpy' has no attribute 'alltrue' (removed in NumPy 2.0)")
+    from .core import ModelledAttributeError
+    import numpy as _np
+    if hasattr(_np, 'alltrue'):
+        return all_(a)
+    raise ModelledAttributeError("module 'numpy' has no attribute 'alltrue' (removed in NumPy 2.0)")
 
 
 # -- sums: a global spec function over reified vectors with its recursive definition as an axiom
